@@ -111,7 +111,7 @@ impl Scenario for EciesNet {
             real: &["bsv::ECIES::{encrypt, encrypt_with_ephemeral_private_key, decrypt, derive_cipher_keys}", "bsv::ECIESCiphertext::{to_bytes, from_bytes, extract_public_key}", "bsv::PrivateKey::{encrypt_message, decrypt_message, from_random via the entropy hook}", "bsv::PublicKey::encrypt_message"],
             stub: &["RefPeer: BIE1 written against k256 point arithmetic, sha2, a hand-written AES-128-CBC/PKCS7 over the aes block cipher and textbook HMAC-SHA256", "entropy source = script installed through the cfg(bsv_verif) hook", "channel = in-memory byte buffer with a fault plan"],
             assumptions: &["a flip inside the four magic bytes (which the statement does not list and the parser ignores) must yield an error or exactly the original message", "truncation/extension are not in this fault mix: the statement prescribes nothing for them and the parsing side is C09's"],
-            required_probes: &["send_bsv_ephemeral", "send_ref", "flip_body", "flip_pubkey", "flip_mac", "flip_magic", "deliver_wrong_recipient", "deliver_wrong_sender", "replayed", "rejection_resample", "bsv_to_ref", "ref_to_bsv", "bsv_to_bsv", "wire_equals_peer", "ciphertext_object_reused"],
+            required_probes: &["send_bsv_ephemeral", "send_ref", "flip_body", "flip_pubkey", "flip_mac", "flip_magic", "deliver_wrong_recipient", "deliver_wrong_sender", "replayed", "rejection_resample", "bsv_to_ref", "ref_to_bsv", "bsv_to_bsv", "wire_equals_peer", "ciphertext_object_reused", "cipher_keys_checked_against_reference"],
             quick_runs: 40_000,
             thorough_runs: 1500000,
             rlimit_as: 4 << 30,
@@ -298,6 +298,48 @@ impl Scenario for EciesNet {
                                 let at = wire.iter().zip(want.iter()).position(|(a, b)| a != b).unwrap_or(wire.len().min(want.len()));
                                 if ctx.violate("mismatch", format!("wire-differs-from-BIE1:{} in {}", mode, region(at, want.len(), has_key)), format!("serialised ciphertext ({} bytes) differs from the reference construction ({} bytes) first at offset {} [{}]", wire.len(), want.len(), at, region(at, want.len(), has_key))) {
                                     return;
+                                }
+                            }
+                        }
+                        // the key schedule itself, from either side: (iv, kE, kM) = SHA-512(compressed ECDH point) split 16/16/32
+                        if rf::is_valid_secret(&sender_secret) && mode != "priv_encrypt_message" {
+                            if let Some(want) = rf::bie1_keys(&sender_secret, &eff_rpub) {
+                                let sides: [(&str, Vec<u8>, Vec<u8>); 2] = [("sender", sender_secret.clone(), eff_rpub.clone()), ("recipient", eff_rsecret.clone(), rf::pubkey_of(&sender_secret, r_compressed).unwrap_or_default())];
+                                for (side, secret, public) in sides.iter() {
+                                    let got = guard(|| -> Result<(Vec<u8>, Vec<u8>, Vec<u8>), String> {
+                                        let a = PrivateKey::from_bytes(secret).map_err(|e| e.to_string())?;
+                                        let b = PublicKey::from_bytes(public).map_err(|e| e.to_string())?;
+                                        let k = ECIES::derive_cipher_keys(&a, &b).map_err(|e| e.to_string())?;
+                                        Ok((k.get_iv(), k.get_ke(), k.get_km()))
+                                    });
+                                    ctx.probe("cipher_keys_checked_against_reference");
+                                    match got {
+                                        Ok(Ok((iv, ke, km))) => {
+                                            if iv != want.iv || ke != want.ke || km != want.km {
+                                                if ctx.violate("mismatch", format!("cipher-keys-differ-from-BIE1:{} side", side), format!("ECIES::derive_cipher_keys on the {} side gives iv={} kE={} kM={}, the reference key schedule iv={} kE={} kM={}", side, hx(&iv), hx(&ke), hx(&km), hx(&want.iv), hx(&want.ke), hx(&want.km))) {
+                                                    return;
+                                                }
+                                            }
+                                        }
+                                        Ok(Err(e)) => {
+                                            if ctx.violate("reject", format!("derive-cipher-keys-failed:{} side", side), format!("derive_cipher_keys with valid keys failed: {}", e)) {
+                                                return;
+                                            }
+                                        }
+                                        Err(pn) => {
+                                            if ctx.violate("panic", format!("panic@{}#derive_cipher_keys", site_file(&pn.site)), format!("{}: {}", pn.site, pn.msg)) {
+                                                return;
+                                            }
+                                        }
+                                    }
+                                }
+                                if let Ok(Some(k)) = guard(|| ct.get_cipher_keys()) {
+                                    ctx.probe("ciphertext_object_carries_cipher_keys");
+                                    if k.get_iv() != want.iv || k.get_ke() != want.ke || k.get_km() != want.km {
+                                        if ctx.violate("mismatch", "cipher-keys-differ-from-BIE1:ciphertext object".into(), "the keys carried by the ciphertext object are not the reference key schedule".into()) {
+                                            return;
+                                        }
+                                    }
                                 }
                             }
                         }
